@@ -349,6 +349,7 @@ type replayFile struct {
 	Property string          `json:"property"`
 	Test     string          `json:"test"`
 	Error    string          `json:"error"`
+	Leg      string          `json:"leg,omitempty"` // build leg (tags) the case was found in; the driver replays with the same one
 	Case     json.RawMessage `json:"case"`
 }
 
@@ -475,7 +476,7 @@ func ReportViolation(t *testing.T, test string, c any, err error) {
 	if len(msg) > 4000 {
 		msg = msg[:4000] + "…"
 	}
-	b, _ := json.MarshalIndent(replayFile{Property: PropertyID, Test: test, Error: msg, Case: raw}, "", " ")
+	b, _ := json.MarshalIndent(replayFile{Property: PropertyID, Test: test, Error: msg, Leg: os.Getenv("VERIF_LEG"), Case: raw}, "", " ")
 	os.WriteFile(path, b, 0o644)
 	fmt.Printf("VIOLATION property=%s replay=%s\n", PropertyID, path)
 	fmt.Printf("  check=%s error=%s\n", test, firstLine(msg))
